@@ -6,7 +6,7 @@
 (* with three rootfiles), every history of MaxLen calls, emission.                 *)
 EXTENDS PartsHistory, PartsOrderMC
 
-HPkgs == { MkPkg("pptx", Conf(ChainOf(Miss(OProf("renamed", "rel", "conv", TRUE, FALSE), 2), "infraMixed"), "strict"), <<3, 1, 2>>, <<2, 3, 1>>, <<1, 3, 2>>),
+HPkgs == { MkPkg("pptx", Notes(Conf(ChainOf(Miss(OProf("renamed", "rel", "conv", TRUE, FALSE), 2), "infraMixed"), "strict"), "all"), <<3, 1, 2>>, <<2, 3, 1>>, <<1, 3, 2>>),
            MkPkg("pptx", Xml(Alias(Enc(OProf("dot", "abs", "last", FALSE, TRUE), "sp20"), "decoded"), XmlProf(TRUE, "ns1", TRUE, TRUE, TRUE, TRUE, "std")), <<2, 3, 1>>, <<3, 2, 1>>, <<2, 1, 3>>),
            MkPkg("epub", Alias(Miss(EProf("nested", "pct2520", "two", 3, "first", TRUE, TRUE, FALSE), 1), "decoded"),
                  <<2, 1, 3>>, <<3, 1, 2>>, <<3, 2, 1>>),
